@@ -1160,6 +1160,20 @@ fn c06_gen_b(seed: u64, run: u64, thorough: bool) -> Plan {
 fn c06_oracles_sender(_plan: &Plan) -> Vec<Box<dyn Oracle>> {
     with_states(vec![Box::new(SenderLimitOracle::new("C06"))])
 }
+/// The sender half of C06 rests on the handshake: a client whose packets the server could never
+/// hold (its max_packet_size above the server's max_receive_alloc, or the reverse) has to be
+/// refused with Config, otherwise the sender discards such packets for lack of receive memory at
+/// its peer. Asymmetric limit pairs on a clean link, the handshake oracle's clauses under C06.
+fn c06_gen_limits(seed: u64, run: u64, thorough: bool) -> Plan {
+    world_b_handshake("C06", "b_asymmetric_limits", seed, run, thorough, true)
+}
+fn c06_oracles_limits(plan: &Plan) -> Vec<Box<dyn Oracle>> {
+    with_states(vec![
+        Box::new(HandshakeOracle::new("C06")),
+        Box::new(SenderLimitOracle::new("C06")),
+        Box::new(TransportOracle::new("C06", TransportClauses { order: true, ..Default::default() }, plan)),
+    ])
+}
 
 fn c06_gen_hostile(seed: u64, run: u64, thorough: bool, flood: bool) -> Plan {
     let mut r = Rng::keyed(&[seed, run, 0xc06]);
@@ -1259,6 +1273,8 @@ pub fn c06() -> CheckDef {
                 what: "a peer that advertises exactly one maximum-size packet (65536 fragments) of receive allocation; a small packet is outstanding when the maximum-size one is submitted, another follows (one run in 751)" },
             Family { name: "a_sender_respects", world: "A", weight: 300, gen: c06_gen_sender, oracles: c06_oracles_sender, adversary: None, keep_workload: false, custom: None,
                 what: "genuine pairs, receive limits 1 byte..6 MB, windows 1..4096, all ack schedules and losses: packets taken from the send queue and not yet below the accepted window base stay within the advertised (fragment-rounded) allocation and 4096 packets; the genuine receiver never discards a packet for lack of memory" },
+            Family { name: "b_asymmetric_limits", world: "B", weight: 40, gen: c06_gen_limits, oracles: c06_oracles_limits, adversary: None, keep_workload: false, custom: None,
+                what: "real Client/Server on a clean link with unequal limits on the two sides (incompatible pairs included): a client whose max_packet_size exceeds the server's max_receive_alloc, or whose max_receive_alloc is below the server's max_packet_size, is refused with Config; the negotiated allocation each side uses is the one its peer advertised" },
             Family { name: "b_sender_respects", world: "B", weight: 120, gen: c06_gen_b, oracles: c06_oracles_sender, adversary: None, keep_workload: false, custom: None,
                 what: "real Client/Server with receive allocations 2 kB..4 MB: the limit each sender uses is the one its peer advertised in the handshake, and is respected" },
             Family { name: "a_hostile_stream", world: "A", weight: 300, gen: c06_gen_hostile_stream, oracles: c06_oracles_receiver, adversary: Some(c06_adv), keep_workload: false, custom: None,
@@ -1307,6 +1323,39 @@ fn c12_gen(seed: u64, run: u64, thorough: bool) -> Plan {
         })
         .collect();
     plan.timeline.extend(extra);
+    // a quarter of the runs: now and then a second step() follows a step() within the same
+    // millisecond (two application threads' ticks coinciding, a loop that steps once more after
+    // handling what the first step returned), often with a flush() right behind it. The second
+    // step is a step like any other: what was queued and not begun before it is stale after it
+    if run % 4 == 1 {
+        let mut r2 = Rng::keyed(&[seed, run, 0xc12_7717]);
+        let p = *r2.pick(&[0.02, 0.1, 0.3]);
+        let mut twin_tag = 800_000u32;
+        let twins: Vec<TimedOp> = plan
+            .timeline
+            .iter()
+            .filter_map(|t| match &t.op {
+                Op::Step { ep } if r2.chance(p) => Some((t.t_us, *ep)),
+                _ => None,
+            })
+            .collect::<Vec<_>>()
+            .into_iter()
+            .flat_map(|(t_us, ep)| {
+                let dt = 2 + r2.below(300);
+                let mut v = vec![TimedOp { t_us: t_us + dt, rank: r2.u32() | 1, op: Op::Step { ep } }];
+                // ... and the application queues a TimeSensitive packet between the two
+                if r2.chance(0.7) {
+                    twin_tag += 1;
+                    v.push(TimedOp { t_us: t_us + 1 + r2.below(dt - 1), rank: 0x4000_0000 + twin_tag, op: Op::Send { ep, to: None, ch: r2.below(4) as u8, mode: MODE_TIME_SENSITIVE, len: r2.range(12, 600) as u32, tag: twin_tag } });
+                }
+                if r2.chance(0.6) {
+                    v.push(TimedOp { t_us: t_us + dt + 1 + r2.below(200), rank: r2.u32() | 1, op: Op::Flush { ep } });
+                }
+                v
+            })
+            .collect();
+        plan.timeline.extend(twins);
+    }
     plan.sort();
     plan
 }
